@@ -553,6 +553,19 @@ def prove(ctx, prop_file, extra_targets=()):
                         trusted_base=TRUSTED_BASE_COMMON + tb, theorems=thms)
     ctx.proof_ok = (ok and not problems and discharged == len(thms) and len(thms) > 0)
     ctx.proof_problems = problems
+    if ctx.tier == "thorough" and ctx.proof_ok and os.environ.get("VERIF_NO_COQCHK") != "1":
+        # independent re-check of the compiled property module and everything it depends on
+        mod = "LV." + prop_file[:-2].replace("/", ".")
+        rc, out = run(["coqchk", "-o", "-silent", "-Q", COQ, "LV", mod], timeout=3600, cwd=COQ)
+        summary = out[out.find("CONTEXT SUMMARY"):] if "CONTEXT SUMMARY" in out else out[-1500:]
+        ctx.coverage["coqchk"] = {"rc": rc, "summary": " ".join(summary.split())[:1500]}
+        if rc != 0:
+            ctx.proof_ok = False
+            ctx.proof_problems = problems + ["coqchk rejects %s: %s" % (mod, out[-400:])]
+        elif "Axioms: <none>" not in " ".join(summary.split()):
+            tb.append("coqchk -o %s: %s" % (mod, " ".join(summary.split())[:600]))
+        else:
+            tb.append("coqchk -o %s: Axioms: <none>; no type-in-type, no unsafe fixpoints, no assumed positivity" % mod)
     return ctx.proof_ok
 
 
